@@ -1,32 +1,65 @@
 #!/usr/bin/env python3
-"""Mutation self-test: applies each deliberate edit of /verif/selftest/mutants.json to a scratch copy of
-/repo (never to /repo itself), runs the listed checks against the copy and compares with the expected
-outcome (violation = exit 1 for every listed property; ok = exit 0).  usage: selftest.py [ids or props...]"""
-import json, os, shutil, subprocess, sys, tempfile
+"""Mutation self-test: applies deliberate edits (selftest/mutants.json) and the seeded changes written by
+independent sub-agents (seeded/*/patch.diff) to a scratch copy of /repo (never to /repo itself), runs the
+listed checks against the copy and compares with the expected outcome.
+usage: selftest.py [--json] [ids or property ids ...]"""
+import json, os, shutil, subprocess, sys, tempfile, glob
 VERIF = os.path.dirname(os.path.dirname(os.path.abspath(__file__)))
-muts = json.load(open(os.path.join(VERIF, "selftest", "mutants.json")))
-sel = set(sys.argv[1:])
-bad = 0
-for m in muts:
-    if sel and not (m["id"] in sel or sel & set(m["props"])):
-        continue
-    scr = tempfile.mkdtemp(prefix="verif-selftest-")
-    try:
-        subprocess.run(["rsync", "-a", "--exclude", ".git", "--exclude", "target", "/repo/", scr + "/"], check=True)
-        p = os.path.join(scr, m["file"])
-        s = open(p).read()
-        if s.count(m["old"]) < 1:
-            print(m["id"], "PATTERN-NOT-FOUND"); bad += 1; continue
-        open(p, "w").write(s.replace(m["old"], m["new"], 1))
-        for prop in m["props"]:
-            env = dict(os.environ, VERIF_REPO=scr, VERIF_EVIDENCE_DIR="/tmp/verif-mut-evidence", VERIF_NO_REPLAY="1")
-            r = subprocess.run([os.path.join(VERIF, "check"), prop], capture_output=True, text=True, env=env)
-            want = 1 if m["expect"] == "violation" else 0
-            ok = (r.returncode == want)
-            lab = [l for l in r.stdout.split("\n") if l.startswith("VIOLATION")][:1]
-            print("%s %-4s %s exit=%d %s  %s" % (m["id"], prop, "as-expected" if ok else "UNEXPECTED", r.returncode, m["why"], (lab[0].split("replay=")[1][-70:] if lab else "")))
-            if not ok:
-                bad += 1
-    finally:
-        shutil.rmtree(scr, ignore_errors=True)
-sys.exit(1 if bad else 0)
+
+
+def load():
+    muts = json.load(open(os.path.join(VERIF, "selftest", "mutants.json")))
+    for d in sorted(glob.glob(os.path.join(VERIF, "seeded", "*", "meta.json"))):
+        m = json.load(open(d))
+        det = m.get("detected", "")
+        muts.append({"id": "seed:" + m["id"], "patch": os.path.join(os.path.dirname(d), "patch.diff"), "props": [m["property"]],
+                     "expect": "violation" if det.startswith("VIOLATION") else "undecided", "why": m.get("needs_to_manifest", "")})
+    return muts
+
+
+def run(sel, quiet=False):
+    results = []
+    for m in load():
+        if sel and not (m["id"] in sel or sel & set(m["props"])):
+            continue
+        scr = tempfile.mkdtemp(prefix="verif-selftest-")
+        try:
+            subprocess.run(["rsync", "-a", "--exclude", ".git", "--exclude", "target", "/repo/", scr + "/"], check=True)
+            if "patch" in m:
+                p = subprocess.run(["patch", "-p1", "-s", "-i", m["patch"]], cwd=scr, capture_output=True, text=True)
+                if p.returncode != 0:
+                    results.append({"id": m["id"], "prop": m["props"][0], "outcome": "patch-does-not-apply", "as_expected": False, "why": m["why"]})
+                    continue
+            else:
+                p = os.path.join(scr, m["file"])
+                s = open(p).read()
+                if s.count(m["old"]) < 1:
+                    results.append({"id": m["id"], "prop": m["props"][0], "outcome": "pattern-not-found", "as_expected": False, "why": m["why"]})
+                    continue
+                open(p, "w").write(s.replace(m["old"], m["new"], 1))
+            for prop in m["props"]:
+                if sel and not (m["id"] in sel or prop in sel):
+                    continue
+                env = dict(os.environ, VERIF_REPO=scr, VERIF_EVIDENCE_DIR="/tmp/verif-mut-evidence", VERIF_NO_REPLAY="1", VERIF_TIER="quick")
+                r = subprocess.run([os.path.join(VERIF, "check"), prop, "--tier", "quick"], capture_output=True, text=True, env=env)
+                want = {"violation": 1, "ok": 0, "undecided": 2}[m["expect"]]
+                lab = [l for l in r.stdout.split("\n") if l.startswith("VIOLATION")][:1]
+                results.append({"id": m["id"], "prop": prop, "outcome": {0: "ok", 1: "violation", 2: "undecided"}.get(r.returncode, str(r.returncode)),
+                                "expected": m["expect"], "as_expected": r.returncode == want, "why": m["why"],
+                                "obligation": (lab[0].split("replay=")[1].split()[0].split("/")[-1][:-5] if lab else None)})
+        finally:
+            shutil.rmtree(scr, ignore_errors=True)
+    return results
+
+
+if __name__ == "__main__":
+    args = sys.argv[1:]
+    as_json = "--json" in args
+    sel = set(a for a in args if not a.startswith("--"))
+    res = run(sel)
+    if as_json:
+        print(json.dumps(res))
+    else:
+        for r in res:
+            print("%-12s %-4s %-9s %s  %s  %s" % (r["id"], r["prop"], r["outcome"], "as-expected" if r["as_expected"] else "UNEXPECTED(expected %s)" % r.get("expected"), r["why"][:70], r.get("obligation") or ""))
+    sys.exit(0 if all(r["as_expected"] for r in res) else 1)
